@@ -121,10 +121,19 @@ def ev(node, env):
             return abs(args[0])
         if node.func.id == 'int' and len(args) == 1:
             return int(args[0])
+        if node.func.id == 'len' and len(args) == 1 and isinstance(args[0], (list, tuple, str, bytes)):
+            return len(args[0])
+        if node.func.id == 'bool' and len(args) == 1:
+            return bool(args[0])
     if isinstance(node, ast.Call) and isinstance(node.func, ast.Attribute) and node.func.attr == 'bit_length' and not node.args:
         return ev(node.func.value, env).bit_length()
     if isinstance(node, ast.Tuple):
         return tuple(ev(e, env) for e in node.elts)
+    if isinstance(node, ast.Subscript) and not isinstance(node.slice, ast.Slice):
+        b = ev(node.value, env)
+        i = ev(node.slice, env)
+        if isinstance(b, (list, tuple)) and isinstance(i, int) and -len(b) <= i < len(b):
+            return b[i]
     raise Unsupported(ast.dump(node)[:80])
 
 
